@@ -282,6 +282,11 @@ func c03RunOnce(out *vlib.Out, w *c34World, c *c03Case, limit time.Duration, rec
 	}
 	cn := w.canon(run)
 	failed = c03Check(out, c, run, cn, hung)
+	if p := x.takeResetPanic(); p != nil {
+		failed = true
+		c03Fail(out, "C03:panic", fmt.Sprintf("panic: the statistics loop (PrintAndReset / Reset) panicked while this connection was being handled (the station process dies and closes every open connection at once): %v (class %s, phantom %s, peer %s, source %q, resets %q)",
+			p, c.class, c.phantom, remote, c.src, c.resets), c.replay(vlib.Seed()))
+	}
 	if !record {
 		return
 	}
@@ -314,7 +319,7 @@ func c03RunOnce(out *vlib.Out, w *c34World, c *c03Case, limit time.Duration, rec
 			if f[1:] == "0" {
 				out.Count("reset:before-connection")
 			} else {
-				out.Count("reset:" + map[byte]string{'P': "before-a-read", 'R': "before-a-read", 'Q': "before-a-classification"}[f[0]])
+				out.Count("reset:" + map[byte]string{'P': "before-a-read", 'R': "before-a-read", 'Q': "before-a-classification", 'N': "before-a-read+connection-on-other-family"}[f[0]])
 			}
 		}
 	}
@@ -991,6 +996,10 @@ func c03RealSockets(out *vlib.Out, n int, wg *sync.WaitGroup) {
 			time.Sleep(2 * time.Millisecond)
 		}
 		inner.Wait()
+		if p := x.takeResetPanic(); p != nil {
+			c03Fail(out, "C03:panic", fmt.Sprintf("real sockets: the statistics loop (PrintAndReset / Reset) panicked while probes were being handled (the station process dies and closes every open connection at once): %v", p),
+				fmt.Sprintf("c03real|seed=%d|statistics-loop", vlib.Seed()))
+		}
 	}()
 }
 
